@@ -37,6 +37,7 @@ fn lookups(store: &AnnotationStore, s: &str) -> Sx {
 
 impl Ctx {
     pub fn new() -> Self {
+        crate::storegen::BARE_KEYS.store(true, std::sync::atomic::Ordering::Relaxed);
         crate::storegen::BANG_NAMES.store(true, std::sync::atomic::Ordering::Relaxed);
         Ctx {}
     }
